@@ -193,6 +193,13 @@ func (c *conn) sread() (f *Frag, err error) {
 
 	f.Peer.FragDoneNumber++
 
+	if f.Error.Nil() && f.Type == codec.RspError {
+		switch f.Peer.Type {
+		case codec.ReqMget, codec.ReqMset, codec.ReqDel:
+			f.Error = codec.Error(f.RspBody)
+		}
+	}
+
 	if f.Error.Nil() {
 		switch f.Peer.Type {
 		case codec.ReqMget:
